@@ -164,6 +164,10 @@ StepEval(m) ==
          LET r == Len(m.res) + 1
              m2 == NewFrame([m EXCEPT !.res = Append(m.res, TRUE)], m.env, <<[n |-> n.var, v |-> [k |-> "res", id |-> r]]>>) IN
          Body(Push(m2, [k |-> "res", id |-> r]), n.body, Top(m2))
+    \* a call of a macro of the program: the form stands for its expansion (the generator writes both the macro call, which
+    \* the implementation expands - every time the form is evaluated from its list form - and the expansion, which the
+    \* machine evaluates; the templates use each argument once)
+    [] n.k = "mcall" -> Ev(m, n.exp, m.env)
     [] n.k = "held" -> Ev(Push(m, [k |-> "held"]), n.e, m.env)
     \* (close stream) inside the body: the stream is closed from then on; leaving the with-open-file form afterwards, in
     \* whatever way, is what it would have been (the value, the exit or the condition are the body's)
